@@ -133,7 +133,8 @@ def gen(tier, rng):
             c = M.merge_case(rng, nprobes=2 + i % 2)
             yield dict(p=PID, probes=c['probes'], dirnames=c['dirnames'], factor=1, label=['', 'probe01'][i % 2])
             continue
-        spec = DC.dense_spec(rng, raw=(i % 3 != 2), feats=(i % 2 == 0), probes=(i % 5 == 0), empty=['none', 'last', 'middle', 'first'][i % 4])
+        spec = DC.dense_spec(rng, raw=(i % 3 != 2), feats=(i % 2 == 0), probes=(i % 5 == 0), empty=['none', 'last', 'middle', 'first'][i % 4],
+                             cmap=['identity', 'random'][i % 2])
         if i % 4 == 1:
             spec['text_files'] = {'cluster_KSLabel.tsv': 'cluster_id\tKSLabel\n0\tgood\n1\tmua\n'}
         if i % 7 == 3:
